@@ -117,18 +117,40 @@ class StepHooks(Hooks):
             if self.dense == "else" and tast.contains(c, lambda x: x.get("k") == "Binary" and x["op"] == "Or"):
                 return None   # `dense_output || event`: event may still be true
             return self.dense   # None = join both branches
+        if c.get("k") == "LetExpr" and "ControlFlag" in (c["init"].get("ty") or "") and c["init"].get("k") == "Path":
+            # `if let ControlFlag::XOut(xo) = flag` on the bound answer of the callback
+            try:
+                fl = self._flag_of(sx.eval(c["init"]))
+            except Exception:
+                fl = None
+            if fl is not None:
+                return "then" if self._pat_is_flag(c["pat"], fl) else "else"
         if c.get("k") == "LetExpr":
             init = c["init"]
             if "SolOut" in init.get("ty", "") or tast.contains(init, lambda x: x.get("k") == "Path" and "Option<&mut S>" in x.get("ty", "")):
                 return "then" if self.solout_present else "else"
         return None
 
+    @staticmethod
+    def _pat_is_flag(pat, want):
+        if pat.get("k") == "POr":
+            return any(StepHooks._pat_is_flag(q, want) for q in pat.get("pats", []))
+        if pat.get("k") in ("PRef", "PDeref") and pat.get("pat") is not None:
+            return StepHooks._pat_is_flag(pat["pat"], want)
+        return (pat.get("def") or "").startswith(FLAG_PREFIX + want) or (pat.get("ctor_of") or "") == FLAG_PREFIX + want
+
+    @staticmethod
+    def _flag_of(v):
+        a = v.single_atom() if isinstance(v, Poly) else None
+        return a[5:] if a and a.startswith("flag:") else None
+
     def select_arms(self, sx, node, scrut):
         s = node["scrut"]
-        if s.get("k") == "MethodCall" and s.get("def") == SOLOUT:
-            want = self.flag if self.in_main else self.init_flag
-            idx = [j for j, a in enumerate(node["arms"]) if (a["pat"].get("def") or "").startswith(FLAG_PREFIX + want)
-                   or (a["pat"].get("ctor_of") or "") == FLAG_PREFIX + want]
+        # the callback's answer, matched directly or through a local it was bound to
+        via_local = self._flag_of(scrut)
+        if (s.get("k") == "MethodCall" and s.get("def") == SOLOUT) or via_local is not None:
+            want = via_local or (self.flag if self.in_main else self.init_flag)
+            idx = [j for j, a in enumerate(node["arms"]) if self._pat_is_flag(a["pat"], want)]
             if idx:
                 return idx
             # wildcard arm
